@@ -12,6 +12,7 @@ import (
 	"sort"
 	"strconv"
 	"strings"
+	"unicode"
 
 	"oss.terrastruct.com/d2/d2ast"
 	"oss.terrastruct.com/d2/d2compiler"
@@ -345,7 +346,9 @@ func styleCells(m map[string]string, p string, s *d2graph.Style) {
 
 // attrCells flattens attributes into cells named like the D2 keys that set them.
 func attrCells(m map[string]string, p string, a *d2graph.Attributes, isEdge bool) {
-	m[p+"label"] = a.Label.Value
+	if p == "" || a.Label.Value != "" {
+		m[p+"label"] = a.Label.Value
+	}
 	if a.Language != "" {
 		m[p+"language"] = a.Language
 	}
@@ -431,6 +434,14 @@ func stateOf(g *d2graph.Graph) *bstate {
 		st.objs = append(st.objs, x.m)
 		st.byID[strings.ToLower(x.absID)] = x.m
 	}
+	// children of a `key: @file` object count as import-valued too
+	for _, o := range g.Objects {
+		for p := o.Parent; p != nil && p != g.Root; p = p.Parent {
+			if st.els[om[p]].impValue {
+				st.els[om[o]].impValue = true
+			}
+		}
+	}
 	for _, e := range g.Edges {
 		m := markerOf(e.Label.Value)
 		if m == "" || count["e"+m] != 1 || count["o"+m] != 0 {
@@ -440,6 +451,7 @@ func stateOf(g *d2graph.Graph) *bstate {
 		x := &el{m: m, edge: true, absID: e.AbsID(), index: e.Index, cells: map[string]string{}}
 		x.src, x.dst = om[e.Src], om[e.Dst]
 		x.arrows = e.ArrowString()
+		x.impValue = st.els[x.src].impValue || st.els[x.dst].impValue
 		for _, r := range e.References {
 			if r.Edge != nil && r.Edge.Range.Path != "index.d2" {
 				x.foreign = true
@@ -666,6 +678,17 @@ func sp(p *string) string {
 
 func strp(s string) *string { return &s }
 
+// quoteName renders a raw name as one key segment (gen.QuoteKey, but every name with a space-like
+// or invisible rune is quoted).
+func quoteName(s string) string {
+	for _, r := range s {
+		if unicode.IsSpace(r) || !unicode.IsPrint(r) || r == '\u00a0' || r == '\ufeff' || r == '\u200b' {
+			return gen.QuoteValue(s)
+		}
+	}
+	return gen.QuoteKey(s)
+}
+
 func joinKey(container, seg string) string {
 	if container == "" {
 		return seg
@@ -726,14 +749,14 @@ func (x *exec) resolve(op Op) *call {
 			c.dest = cont.m
 			c.dForeign, c.dImpValue = cont.foreign, cont.impValue
 		}
-		seg := gen.QuoteKey(name)
+		seg := quoteName(name)
 		if op.F&2 != 0 && nobj > 0 { // colliding: reuse the name of an existing child of the container
 			if ch := st.children(c.dest); len(ch) > 0 {
 				seg = st.els[ch[abs(op.V)%len(ch)]].id
 			}
 		}
 		if op.F&1 != 0 { // one missing container on the path
-			mid := gen.QuoteKey(namePool[(abs(op.N)+7)%nPlainNames] + "c")
+			mid := quoteName(namePool[(abs(op.N)+7)%nPlainNames] + "c")
 			base = joinKey(base, mid)
 		}
 		c.key = joinKey(base, seg)
@@ -873,7 +896,7 @@ func (x *exec) resolve(op Op) *call {
 		seg := e.id
 		c.sameName = true
 		if op.F&2 != 0 {
-			seg, c.sameName = gen.QuoteKey(name), false
+			seg, c.sameName = quoteName(name), false
 		}
 		c.newKey = joinKey(base, seg)
 		if c.dest != "" {
@@ -1033,6 +1056,9 @@ func (x *exec) label(l string) { x.labels = append(x.labels, l) }
 func (x *exec) fail(step int, sig, format string, args ...any) {
 	if x.cur != nil {
 		suf := x.cur.ctxSuffix()
+		if strings.HasPrefix(sig, "refused-edit-") {
+			suf = "" // the in-place mutation before validation does not depend on the addressed construct
+		}
 		if strings.HasPrefix(suf, "@import") && !strings.HasPrefix(sig, "panic:") && x.prop != "C36" && x.prop != "C41" {
 			// elements that come from an imported file are only partly understood by the editing
 			// functions (the failure kinds are many): one signature per operation and construct
